@@ -13,6 +13,7 @@ namespace AwsVerif.Props.C14
 open AwsVerif.Log AwsVerif.Gen.Log AwsVerif.Proofs.C14
 
 
+
 /-- **Line shape.**  When the buffer can hold the whole line and its terminator, the formatter
 succeeds, `amount_written` is the length of `prefix ++ message ++ "\n"`, those bytes are exactly that
 line (whatever the buffer held before), a NUL follows it inside the buffer, and with NUL-free inputs
@@ -101,6 +102,17 @@ theorem c14_gate_after_store (p : Pipe) (l : Nat) (h : List Op) (hch : p.chan = 
     (run (setLevel p l) h).written = p.written ++ passing l h ∧ (run (setLevel p l) h).level = l :=
   Thm.c14_gate_after_store p l h hch hns hwf
 
+/-- **A failing writer changes nothing about ownership.**  With the foreground channel, whether the writer's
+`write` succeeds or fails for this line, the call reports success, the line counts as handed to the writer, and it
+is destroyed exactly once (by the channel — the pipeline must not, and does not, destroy it again). -/
+theorem c14_writer_failure (p : Pipe) (c : Call) (line : Bytes) (hch : p.chan = .foreground)
+    (hf : defaultFormat c.level c.subject c.msg c.ts c.tid = .ok line) :
+    (pipelineLog p c).2 = true ∧
+    (pipelineLog p c).1.written = p.written ++ [line] ∧
+    (pipelineLog p c).1.destroyed = p.destroyed ++ [line] ∧
+    (pipelineLog p c).1.writeErrors = p.writeErrors + (if c.writeOk then 0 else 1) :=
+  Thm.c14_writer_failure p c line hch hf
+
 /-! ## Background channel: every interleaving of senders, background thread, clean-up and spurious wake-ups
 
 `Bg.Reachable s`: `s` is reached from the initial state by any sequence of `Bg.Act`s — new sends by any
@@ -160,6 +172,20 @@ theorem c14_fg_safety (s : Fg.Sys) (hr : Fg.Reachable s) :
     s.destroyed.Nodup ∧ (∀ l ∈ s.destroyed, l ∈ s.written) ∧
     ((∀ t, s.pcs t = .idle) → ∀ l ∈ s.written, l ∈ s.destroyed) :=
   Thm.c14_fg_safety s hr
+
+/-! ## No-alloc logger, several threads -/
+
+/-- **No-alloc logger used by any number of threads**, every interleaving: the file holds exactly the lines the
+calls formatted, in the order of their `fwrite`s — none torn, replaced or duplicated (`file = logged.map some`,
+which rests on each call formatting into its own buffer); a thread's lines appear in its call order and no
+line twice; every call that has returned has its line in the file; and at most one thread is between lock
+and unlock. -/
+theorem c14_noalloc_threads (s : Na.Sys) (hr : Na.Reachable s) :
+    s.file = s.logged.map some ∧
+    s.logged.Pairwise (fun a b => a.1 = b.1 → a.2 < b.2) ∧ s.logged.Nodup ∧
+    (∀ l ∈ s.returned, l ∈ s.logged) ∧
+    (∀ t, nHolds (s.pcs t) = true ↔ s.mutex = some t) :=
+  Thm.c14_noalloc_threads s hr
 
 /-! hypotheses of the theorems above are satisfiable by non-trivial data -/
 example : ∃ d : FmtData, InRange d ∧ CleanData d ∧ d.ts ≠ [] ∧ d.msg ≠ [] ∧ d.subject.isSome ∧ (fullLine d).length + 1 ≤ d.total :=
